@@ -42,6 +42,10 @@ const H_F0: u8 = 7;
 const H_FN: u8 = 8;
 const H_FP: u8 = 9;
 const H_QQ: u8 = 10;
+const H_QV: u8 = 11;
+const H_QP: u8 = 12;
+/// expected error: any code (the failure is pinned, its number is not)
+const ANY: i16 = 1;
 
 pub fn kinds() -> Vec<UKind> {
     vec![
@@ -49,6 +53,7 @@ pub fn kinds() -> Vec<UKind> {
         UKind { name: "query-ok-1", text: "QA?", handler: Some(H_Q1), query: true, fail: None, own: Inv::Must },
         UKind { name: "query-ok-hdr2", text: "QH?", handler: Some(H_QH), query: true, fail: None, own: Inv::Must },
         UKind { name: "query-ok-quoted", text: "QQ?", handler: Some(H_QQ), query: true, fail: None, own: Inv::Must },
+        UKind { name: "query-ok-long-header", text: "QV?", handler: Some(H_QV), query: true, fail: None, own: Inv::Must },
         UKind { name: "handler-error-event", text: "FE", handler: Some(H_FE), query: false, fail: Some((-200, None)), own: Inv::Must },
         UKind { name: "handler-error-after-partial-write", text: "FQ?", handler: Some(H_FQ), query: true, fail: Some((-300, Some(b"partial"))), own: Inv::Must },
         UKind { name: "handler-returns-code-0", text: "FZ", handler: Some(H_F0), query: false, fail: Some((0, None)), own: Inv::Must },
@@ -61,6 +66,8 @@ pub fn kinds() -> Vec<UKind> {
         UKind { name: "undefined-header", text: "ZZ", handler: None, query: false, fail: Some((-113, None)), own: Inv::Never },
         UKind { name: "lexical-error-in-data", text: "EV #Hzz", handler: Some(H_EV), query: false, fail: Some((-101, None)), own: Inv::Maybe },
         UKind { name: "lexical-error-in-header", text: "EV$", handler: None, query: false, fail: Some((-101, None)), own: Inv::Never },
+        UKind { name: "empty-unit", text: "", handler: None, query: false, fail: Some((-101, None)), own: Inv::Never },
+        UKind { name: "response-element-unformattable", text: "QP?", handler: Some(H_QP), query: true, fail: Some((ANY, None)), own: Inv::Must },
     ]
 }
 
@@ -78,6 +85,8 @@ pub fn trees() -> Vec<(&'static str, TreeSpec, &'static str)> {
             TreeSpec::leaf("FN", H_FN),
             TreeSpec::leaf("FP", H_FP),
             TreeSpec::leaf("QQ", H_QQ),
+            TreeSpec::leaf("QV", H_QV),
+            TreeSpec::leaf("QP", H_QP),
         ]
     };
     vec![
@@ -108,6 +117,8 @@ pub fn plans(dev: &mut RigDev) {
     dev.plan[H_FN as usize] = Plan { fail: Some(Error::custom(-42, b"Custom")), ..Plan::NOP };
     dev.plan[H_FP as usize] = Plan { fail: Some(Error::custom(5, b"Custom").extended(b"x\"y")), ..Plan::NOP };
     dev.plan[H_QQ as usize] = Plan::resp(&[Item::Str(b"a-long-segment-first\"x")]);
+    dev.plan[H_QV as usize] = Plan::resp(&[Item::Header(b"VOLTAGE"), Item::I64(7)]);
+    dev.plan[H_QP as usize] = Plan::resp(&[Item::I64(1), Item::Str(b"caf\xc3\xa9"), Item::I64(0)]);
     dev.plan[H_P1 as usize] = Plan::pull(1, 0);
     dev.plan[H_PI as usize] = Plan {
         req: 1,
@@ -119,7 +130,9 @@ pub fn plans(dev: &mut RigDev) {
 fn class_ok(got: i16, want: i16) -> bool {
     // lexical errors: any command error -100..-199 is acceptable for the "lexical" kinds (the exact
     // syntax error number is C04/C14 business); all other kinds are exact.
-    if want == -101 || want == -104 {
+    if want == ANY {
+        true
+    } else if want == -101 || want == -104 {
         (-199..=-100).contains(&got)
     } else {
         got == want
@@ -198,7 +211,7 @@ pub fn judge(msg: &[u8], exp: &Expect, calls: &[(u8, bool)], result: Result<(), 
                 };
                 return Err((key.into(), format!("`{m}` (unit {i} fails) invoked {:?}; expected {:?} then own handler {:?}/{:?}", calls, exp.before, own, own_call)));
             }
-            if !class_ok(err.0, *code) || (*code != -101 && *code != -104 && err.1.as_deref() != *ext) {
+            if !class_ok(err.0, *code) || (*code != -101 && *code != -104 && *code != ANY && err.1.as_deref() != *ext) {
                 return Err(("wrong-error-returned".into(), format!("`{m}` returned {:?}, expected {code} {:?}", err, ext.map(esc))));
             }
             if hook.len() != 1 {
@@ -266,9 +279,73 @@ pub fn check_case(tree: &'static Node<'static, RigDev>, ks: &[UKind], seq: &[usi
                     }
                 }
             }
+            // formatter capacity under a failing message: an earlier unit's error is not to be replaced by a
+            // later buffer failure (e.g. of the terminator), and a buffer failure that strikes first wins
+            if cap_sweep && r.is_err() {
+                if let Some((fi, own, own_call, code, ext)) = exp.failing.clone() {
+                    // reference bytes written by the successful queries in front of the failing unit
+                    let plen = prefix_len(ks, &seq[..fi]);
+                    // the failing unit itself may write a separator and part of its response before failing
+                    let partial = if ks[seq[fi]].query { 4 } else { 0 };
+                    for cap in 0..=(plen + partial + 2).min(crate::capdispatch::MAX_CAP) {
+                        if cap >= plen && cap < plen + partial {
+                            continue; // which failure strikes first inside the failing unit is not pinned
+                        }
+                        stats.1 += 1;
+                        let mut dev = RigDev::new();
+                        plans(&mut dev);
+                        match run_with_cap(cap, tree, &mut dev, &msg) {
+                            Err(p) => fails.push(("panic".to_string(), format!("`{}` cap {cap} panicked: {p}", esc(&msg)), case(cap as i64))),
+                            Ok(cr) => {
+                                let (calls, hook) = obs(&dev);
+                                let e = if cap < plen {
+                                    let (bi, sep_fails) = failing_unit(ks, &seq[..fi], &out, cap);
+                                    let before: Vec<(u8, bool)> = seq[..bi].iter().map(|&k| (ks[k].handler.unwrap(), ks[k].query)).collect();
+                                    let own = Some((ks[seq[bi]].handler.unwrap(), ks[seq[bi]].query));
+                                    Expect { before, failing: Some((bi, if sep_fails { Inv::Never } else { Inv::Must }, own, -225, None)) }
+                                } else {
+                                    Expect { before: exp.before.clone(), failing: Some((fi, own, own_call, code, ext)) }
+                                };
+                                let want225 = cap < plen;
+                                let r = cr.result.map_err(|c| (c, if want225 { None } else { hook.first().and_then(|h| if h.0 == c { h.1.clone() } else { None }) }));
+                                if let Err((k, w)) = judge(&msg, &e, &calls, r, &hook) {
+                                    fails.push((format!("failing-message-capacity-{k}"), format!("capacity {cap} (units before the failing one write {plen} bytes): {w}"), case(cap as i64)));
+                                }
+                            }
+                        }
+                    }
+                }
+            }
         }
     }
     fails
+}
+
+/// Bytes the successful query units of `seq` write (units joined by `;`, no terminator).
+fn prefix_len(ks: &[UKind], seq: &[usize]) -> usize {
+    let mut n = 0;
+    let mut first = true;
+    for &k in seq {
+        if !ks[k].query {
+            continue;
+        }
+        if !first {
+            n += 1;
+        }
+        first = false;
+        n += resp_text(ks[k].name).len();
+    }
+    n
+}
+
+fn resp_text(name: &str) -> &'static [u8] {
+    match name {
+        "query-ok-1" => b"7",
+        "query-ok-hdr2" => b"HD \"s;t\",1",
+        "query-ok-quoted" => b"\"a-long-segment-first\"\"x\"",
+        "query-ok-long-header" => b"VOLTAGE 7",
+        _ => b"",
+    }
 }
 
 /// Which unit's write is the first to exceed `cap`, given the full response `out`.
@@ -286,6 +363,7 @@ fn failing_unit(ks: &[UKind], seq: &[usize], out: &[u8], cap: usize) -> (usize, 
             "query-ok-1" => b"7",
             "query-ok-hdr2" => b"HD \"s;t\",1",
             "query-ok-quoted" => b"\"a-long-segment-first\"\"x\"",
+            "query-ok-long-header" => b"VOLTAGE 7",
             _ => b"",
         };
         if !first {
@@ -307,23 +385,29 @@ fn failing_unit(ks: &[UKind], seq: &[usize], out: &[u8], cap: usize) -> (usize, 
 
 pub fn run(ctx: &'static Ctx) -> i32 {
     let ks = kinds();
-    let k = ctx.tier.pick(3usize, 4usize);
+    let k = ctx.tier.pick(4usize, 6usize);
     let nk = ks.len() as u64;
-    let mut seqs: Vec<Vec<usize>> = vec![];
+    // sequences are decoded from the index: lengths 1..=k in order, base-nk digits
+    let mut offs: Vec<u64> = vec![0];
     for len in 1..=k {
-        for idx in 0..nk.pow(len as u32) {
-            let mut s = vec![];
-            let mut x = idx;
-            for _ in 0..len {
-                s.push((x % nk) as usize);
-                x /= nk;
-            }
-            s.reverse();
-            seqs.push(s);
-        }
+        offs.push(offs[len - 1] + nk.pow(len as u32));
     }
+    let nseq = offs[k];
+    let seq_of = move |mut idx: u64| -> Vec<usize> {
+        let mut len = 1;
+        while idx >= nk.pow(len as u32) {
+            idx -= nk.pow(len as u32);
+            len += 1;
+        }
+        let mut s = vec![0usize; len];
+        for j in (0..len).rev() {
+            s[j] = (idx % nk) as usize;
+            idx /= nk;
+        }
+        s
+    };
     let ts: Vec<(&str, SharedTree, &str)> = trees().into_iter().map(|(n, s, p)| (n, SharedTree::of(&s), p)).collect();
-    let total = seqs.len() as u64 * ts.len() as u64;
+    let total = nseq * ts.len() as u64;
     struct Acc {
         runs: u64,
         cap_runs: u64,
@@ -335,7 +419,7 @@ pub fn run(ctx: &'static Ctx) -> i32 {
         total,
         SweepOpts {
             name: "C05 fault enumeration",
-            chunk: 64,
+            chunk: 4096,
             hang_secs: 60,
         },
         || Acc {
@@ -346,7 +430,11 @@ pub fn run(ctx: &'static Ctx) -> i32 {
         },
         |i, acc: &mut Acc| {
             let t = &ts[(i % ts.len() as u64) as usize];
-            let seq = &seqs[(i / ts.len() as u64) as usize];
+            let seq = &seq_of(i / ts.len() as u64);
+            // an empty unit is a fault only between two units (a trailing `;` is fine, a leading one is not pinned)
+            if seq.iter().enumerate().any(|(j, &k)| ks[k].name == "empty-unit" && (j == 0 || j + 1 == seq.len())) {
+                return;
+            }
             let mut st = (0, 0);
             let fails = check_case(t.1.node(), &ks, seq, t.2, true, &mut st);
             acc.runs += st.0;
@@ -374,7 +462,7 @@ pub fn run(ctx: &'static Ctx) -> i32 {
     c.insert("evaluations".into(), json!(runs + cap_runs));
     c.insert("distinct_nontrivial".into(), json!(failing + cap_runs));
     c.insert("distinct_failure_position_kind_pairs".into(), json!(outcomes.len()));
-    c.insert("rule".into(), json!(format!("every message of 1..{k} units over 16 unit kinds (event ok, query ok with 1 datum / header+2 data / a string with an embedded quote behind a long segment, handler-returned error from event / from query after a partial write, handler-returned errors with the unusual codes 0, -42 and +5 (with extended text), surplus parameter -108, missing -109, type -104, range -222, undefined header -113, lexical error in data, lexical error in header) on a flat tree and on a nested tree reached through a default branch; reference executor: units left to right, first failing unit i => handler log is exactly units < i plus unit i's own handler iff the failure arises inside/after it, run returns exactly that error, handle_error receives exactly that error once, never on success. Formatter faults: for every successful message with output, every ArrayVec capacity 0..|R|-1 (one failing write each; the failing unit is computed from the reference response layout) must give -225 once with no later handler. Distinct non-trivial = failing messages + capacity-fault runs")));
+    c.insert("rule".into(), json!(format!("every message of 1..{k} units over 19 unit kinds (event ok, a query with a long response header and short data, query ok with 1 datum / header+2 data / a string with an embedded quote behind a long segment, handler-returned error from event / from query after a partial write, handler-returned errors with the unusual codes 0, -42 and +5 (with extended text), surplus parameter -108, missing -109, type -104, range -222, undefined header -113, lexical error in data, lexical error in header, an empty unit between two units, a query whose middle response element cannot be formatted) on a flat tree and on a nested tree reached through a default branch; reference executor: units left to right, first failing unit i => handler log is exactly units < i plus unit i's own handler iff the failure arises inside/after it, run returns exactly that error, handle_error receives exactly that error once, never on success. Formatter faults: for every successful message with output, every ArrayVec capacity 0..|R|-1 (one failing write each; the failing unit is computed from the reference response layout) must give -225 once with no later handler. Distinct non-trivial = failing messages + capacity-fault runs")));
     c.insert("exhaustive".into(), json!(true));
     c.insert("messages".into(), json!(runs));
     c.insert("formatter_fault_runs".into(), json!(cap_runs));
